@@ -31,8 +31,9 @@ Hypothesis q_gt : 3 * q > 2 * W.
 Hypothesis xid_inj : forall x y, In x evs -> In y evs -> xid x = xid y -> x = y.
 Hypothesis fc_char : forall a b, In a evs -> In b evs -> fc a b = true ->
   sf a (cr b) = false /\ q <= wsP ws (fun v => negb (sf a v) && between b a v).
-Hypothesis leb_trans : forall x y z, leb x y = true -> leb y z = true -> leb x z = true.
-Hypothesis sf_mono : forall a a' v, leb a a' = true -> sf a v = true -> sf a' v = true.
+Hypothesis leb_trans : forall x y z, In x evs -> In y evs -> In z evs ->
+  leb x y = true -> leb y z = true -> leb x z = true.
+Hypothesis sf_mono : forall a a' v, In a evs -> In a' evs -> leb a a' = true -> sf a v = true -> sf a' v = true.
 
 Variable byz : nat -> bool.
 Hypothesis byz_small : 3 * wsP ws byz < W.
@@ -41,7 +42,7 @@ Hypothesis honest_chain : forall v x y, (v < nv)%nat -> byz v = false -> In x ev
 
 (* whoever sees both sees a fork of their creator *)
 Definition forkpair (r1 r2 : X) : Prop :=
-  cr r1 = cr r2 /\ forall a, leb r1 a = true -> leb r2 a = true -> sf a (cr r1) = true.
+  cr r1 = cr r2 /\ forall a, In a evs -> leb r1 a = true -> leb r2 a = true -> sf a (cr r1) = true.
 
 Lemma fork_exclusion r1 r2 x y : In x evs -> In y evs -> In r1 evs -> In r2 evs ->
   forkpair r1 r2 -> fc x r1 = true -> fc y r2 = true -> False.
@@ -58,17 +59,17 @@ Proof.
   apply Nat.eqb_eq in C1, C2.
   destruct (honest_chain v x1 x2 Hv Hb Hx1 Hx2 C1 C2) as [Hle|Hle].
   - assert (Hs : sf y (cr r1) = true).
-    { apply (sf_mono x2); [exact L2y|]. apply Hfp; [eapply leb_trans; eauto | exact L2r]. }
+    { apply (sf_mono x2); [exact Hx2|exact Iy|exact L2y|]. apply Hfp; [exact Hx2|eapply (leb_trans r1 x1 x2); eauto | exact L2r]. }
     rewrite Hc in Hs. rewrite Hs in Hny. discriminate.
   - assert (Hs : sf x (cr r1) = true).
-    { apply (sf_mono x1); [exact L1x|]. apply Hfp; [exact L1r | eapply leb_trans; eauto]. }
+    { apply (sf_mono x1); [exact Hx1|exact Ix|exact L1x|]. apply Hfp; [exact Hx1|exact L1r | eapply (leb_trans r2 x2 x1); eauto]. }
     rewrite Hs in Hnx. discriminate.
 Qed.
 
 (* ---------------- roots ---------------- *)
 Hypothesis roots_fork : forall f r1 r2, In r1 (roots f) -> In r2 (roots f) -> xid r1 <> xid r2 ->
   cr r1 = cr r2 -> forkpair r1 r2.
-Hypothesis roots_quorum : forall f r, In r (roots (f + 1)) ->
+Hypothesis roots_quorum : forall f r, 1 <= f -> In r (roots (f + 1)) ->
   quorum_on X cr fr spf fc ws q evs r f = true.
 
 Lemma roots_in f r : In r (roots f) -> In r evs.
@@ -97,8 +98,8 @@ Proof using Type.
 Qed.
 
 Definition sees_quorum (r : X) (f : N) : Prop := q <= wsP ws (voters (obsv r f) (fun _ => true)).
-Lemma roots_sees_quorum f r : In r (roots (f + 1)) -> sees_quorum r f.
-Proof. intros H. apply roots_quorum in H. unfold quorum_on in H. apply N.leb_le in H. exact H. Qed.
+Lemma roots_sees_quorum f r : 1 <= f -> In r (roots (f + 1)) -> sees_quorum r f.
+Proof. intros Hf H. apply roots_quorum in H; [|exact Hf]. unfold quorum_on in H. apply N.leb_le in H. exact H. Qed.
 
 (* the counting step, generic in the two (exclusive) vote predicates *)
 Lemma core_count f r r' (P Pn : X -> bool) : In r evs -> In r' evs ->
@@ -159,7 +160,8 @@ Lemma decision_forces_round k r v b r' :
   decides k r v b -> In r' (roots (f0 + N.of_nat k + 1)) -> vote (S k) r' v = b.
 Proof.
   intros [Hk [Hr Hd]] Hr'. rewrite vote_S by assumption.
-  pose proof (roots_sees_quorum _ _ Hr') as HQ.
+  assert (Hf1 : 1 <= f0 + N.of_nat k) by lia.
+  pose proof (roots_sees_quorum _ _ Hf1 Hr') as HQ.
   unfold yesV, noV in *. destruct b.
   - destruct (core_count (f0 + N.of_nat k) r r' (fun r' => vote k r' v) (fun r' => negb (vote k r' v))) as [A B];
       eauto using roots_in.
@@ -179,7 +181,8 @@ Lemma all_vote_then_next k v b : (1 <= k)%nat ->
     /\ (if b then noV k r' v else yesV k r' v) = 0.
 Proof.
   intros Hk Hall r' Hr'. rewrite vote_S by assumption.
-  pose proof (roots_sees_quorum _ _ Hr') as HQ. unfold sees_quorum in HQ.
+  assert (Hf1 : 1 <= f0 + N.of_nat k) by lia.
+  pose proof (roots_sees_quorum _ _ Hf1 Hr') as HQ. unfold sees_quorum in HQ.
   unfold yesV, noV.
   set (o := obsv r' (f0 + N.of_nat k)) in *.
   assert (Hb : wsP ws (voters o (fun _ => true))
@@ -222,7 +225,8 @@ Proof.
       replace (f0 + N.of_nat k1 + 1) with (f0 + N.of_nat (S k1)) by lia. exact Hr. }
     destruct (Nat.eq_dec k1 k2) as [E|Hne].
     - subst k2. (* same round: both sides would hold a quorum *)
-      pose proof (roots_sees_quorum _ _ Hr2) as HQ2.
+      assert (Hf1 : 1 <= f0 + N.of_nat k1) by lia.
+      pose proof (roots_sees_quorum _ _ Hf1 Hr2) as HQ2.
       destruct b1, b2; try reflexivity; exfalso; unfold yesV, noV in *.
       + destruct (core_count (f0 + N.of_nat k1) r1 r2 (fun r' => vote k1 r' v) (fun r' => negb (vote k1 r' v))) as [A B];
           eauto using roots_in.
